@@ -25,7 +25,7 @@ fn spec() -> Spec {
             Kind { name: "congruence", quick: 200_000, thorough: 5_000_000, serial: false },
             Kind { name: "forward_transformed", quick: 150_000, thorough: 4_000_000, serial: false },
         ],
-        rule: "rigid: random triangles (side 1e-2..1e2 m, angle at p1 with sin >= 1e-6, up to 1e3 m from the origin) x random rigid motions incl. rotations next to 180 degrees: result Ok, proper, maps p_i to q_i, equals the generating motion. collinear: p3 = p1 + t*(p2-p1) evaluated in floating point and exactly representable integer cases, sources and targets: Err(ColinearPoints) with the right flag. congruence: one pairwise distance changed by >= 5 mm + 1e-9 => Err(NotIsometry), by <= 5 mm - 1e-9 => Ok and still a proper rigid map with p1 -> q1. forward_transformed: pose == frame*FK(q), every solution realises it, list ordered by closeness to previous. Frame::translation: pure shift q-p. non-trivial = rotation angle > 1e-3 (rigid) / conclusive rejection; distinct = hash(points) Workload additions: coincident source / target points; forward_transformed with the CONSTRAINT_CENTERED sentinel as previous.",
+        rule: "rigid: random triangles (side 1e-2..1e2 m, angle at p1 with sin >= 1e-6, up to 1e3 m from the origin) x random rigid motions incl. rotations next to 180 degrees: result Ok, proper, maps p_i to q_i, equals the generating motion. collinear: p3 = p1 + t*(p2-p1) evaluated in floating point and exactly representable integer cases, sources and targets: Err(ColinearPoints) with the right flag. congruence: one pairwise distance changed by >= 5 mm + 1e-9 => Err(NotIsometry), by <= 5 mm - 1e-9 => Ok and still a proper rigid map with p1 -> q1. forward_transformed: pose == frame*FK(q), every solution realises it, list ordered by closeness to previous. Frame::translation: pure shift q-p. non-trivial = rotation angle > 1e-3 (rigid) / conclusive rejection; distinct = hash(points) Workload additions: coincident source / target points; forward_transformed with the CONSTRAINT_CENTERED sentinel as previous. Rounds 7-9: a Frame around a Frame; answers compared with what the wrapped robot finds for the reference moved pose; exactly-identity frames; a wrist-singular pose with previous != qs; target points listed in another order.",
         assumptions: vec![
             "sin(angle at p1) between 1e-12 and 1e-6: either outcome accepted, but an Ok result must be a proper rotation mapping p1 to q1",
             "mapping tolerance 1e-9*scale/sin(angle) + 1e-12*|offset|",
@@ -276,7 +276,32 @@ fn collinear(idx: u64, rng: &mut Rng, mon: &mut Mon) {
     }
 }
 
+/// The same triangle with its target points listed in another order is not the image of the source triple:
+/// the pairwise distances belong to other pairs (sides differing by more than 5 mm).
+fn permuted_targets(rng: &mut Rng, mon: &mut Mon) {
+    let (p1, p2, p3, _) = triangle(rng, rng.clone().range(0.3, 1.0));
+    let _ = rng.next_u64();
+    let (a, b, c) = (norm(sub(p2, p1)), norm(sub(p3, p1)), norm(sub(p3, p2)));
+    if (a - b).abs() < 0.02 || (a - c).abs() < 0.02 || (b - c).abs() < 0.02 {
+        mon.inconclusive("permuted:sides-too-similar");
+        return;
+    }
+    let m = motion(rng);
+    let img = [m.apply(p1), m.apply(p2), m.apply(p3)];
+    let perm = *rng.pick(&[[1usize, 0, 2], [0, 2, 1], [2, 1, 0], [1, 2, 0], [2, 0, 1]]);
+    let q = [img[perm[0]], img[perm[1]], img[perm[2]]];
+    mon.count("congruence.permuted_targets");
+    match guarded(|| Frame::frame(pt(p1), pt(p2), pt(p3), pt(q[0]), pt(q[1]), pt(q[2]))) {
+        Err(msg) => mon.violation("congruence:panic", "Frame::frame panicked", json!({"points": points_json(&[p1, p2, p3], &q), "panic": msg})),
+        Ok(Ok(_)) => mon.violation("congruence:accepted-permuted-targets", "target points listed in another order (pairwise distances off by more than 5 mm) were accepted", json!({"points": points_json(&[p1, p2, p3], &q), "permutation": perm})),
+        Ok(Err(_)) => mon.held(),
+    }
+}
+
 fn congruence(idx: u64, rng: &mut Rng, mon: &mut Mon) {
+    if rng.usize(8) == 0 {
+        return permuted_targets(rng, mon);
+    }
     let (p1, p2, p3, _s) = triangle(rng, rng.clone().range(0.3, 1.0));
     let _ = rng.next_u64();
     let m = motion(rng);
@@ -338,7 +363,9 @@ fn forward_transformed(idx: u64, rng: &mut Rng, mon: &mut Mon) {
     let rp = robot.rp;
     let kin = Arc::new(OPWKinematics::new(to_params(&rp)));
     // small frames keep the moved pose reachable in a good share of cases
-    let fr = if rng.bool(0.7) { Fr { r: axis_angle(unit(rng), rng.range(-0.3, 0.3)), p: [rng.range(-0.1, 0.1), rng.range(-0.1, 0.1), rng.range(-0.1, 0.1)] } } else { random_fr(rng, 0.5) };
+    // (one frame in twenty is exactly the identity: the target found at its nominal place)
+    let exact_identity = rng.usize(20) == 0;
+    let fr = if exact_identity { Fr::id() } else if rng.bool(0.7) { Fr { r: axis_angle(unit(rng), rng.range(-0.3, 0.3)), p: [rng.range(-0.1, 0.1), rng.range(-0.1, 0.1), rng.range(-0.1, 0.1)] } } else { random_fr(rng, 0.5) };
     // a quarter of the frames wraps a robot that is itself a Frame (rotation about a pivot off the origin): the
     // inner frame acts like a tool on the wrapped robot, forward and inverse of it must agree
     let inner: Option<Fr> = if rng.bool(0.25) { Some(Fr { r: axis_angle(unit(rng), rng.range(-1.0, 1.0)), p: [rng.range(-0.2, 0.2), rng.range(-0.2, 0.2), rng.range(-0.2, 0.2)] }) } else { None };
@@ -375,9 +402,10 @@ fn forward_transformed(idx: u64, rng: &mut Rng, mon: &mut Mon) {
     {
         use rs_opw_kinematics::kinematic_traits::Kinematics;
         let direct = frame.robot.inverse_continuing(&fr_to_iso(&want), &prev_given);
-        let missing = direct.iter().filter(|d| !sols.iter().any(|s| (0..6).all(|j| (s[j] - d[j]).abs() <= 1e-6))).count();
+        // (modulo whole turns: a solution angle exactly pi away from previous may take either representative)
+        let missing = direct.iter().filter(|d| !sols.iter().any(|s| (0..6).all(|j| circ_dist(s[j], d[j]) <= 1e-6))).count();
         if missing > 0 || sols.len() < direct.len() {
-            mon.violation("forward-transformed:solutions-lost", "forward_transformed returns fewer solutions than the wrapped robot finds for the moved pose", detail("complete", json!({"returned": sols.len(), "wrapped_robot_finds": direct.len()})));
+            mon.violation("forward-transformed:solutions-lost", "forward_transformed returns fewer solutions than the wrapped robot finds for the moved pose", detail("complete", json!({"returned": sols.len(), "wrapped_robot_finds": direct.len(), "returned_list": sols.iter().map(|s| jf(s)).collect::<Vec<_>>(), "direct_list": direct.iter().map(|s| jf(s)).collect::<Vec<_>>()})));
         } else {
             mon.held();
         }
@@ -408,6 +436,31 @@ fn forward_transformed(idx: u64, rng: &mut Rng, mon: &mut Mon) {
     }
     if ok {
         mon.held();
+    }
+    // at a wrist-singular pose the answers are built around the caller's PREVIOUS joints (not around qs): with an
+    // identity frame, qs exactly singular and previous = qs with J4 / J6 shifted against each other (same pose), the
+    // previous vector itself is among the answers (well-conditioned arm postures only, as in C05)
+    if rng.bool(0.08) && rp.signs[3] != 0 && rp.signs[5] != 0 && rp.reach() >= 0.3 && rp.reach() <= 12.0 {
+        let mut qs = joints_uniform(rng, PI);
+        crate::props::ik::place_t5(&rp, &mut qs, 0, 0.0);
+        let m = sing_measures(&rp, &qs);
+        if m.elbow >= 1e-2 && m.shoulder >= 1e-2 && crate::props::c05::wc_sensitivity(&rp, &qs) <= 3.0 {
+            let e = rng.range(-1.0, 1.0);
+            let mut pv = qs;
+            pv[3] += e * rp.signs[3] as f64;
+            pv[5] -= e * rp.signs[5] as f64;
+            let idf = Frame { robot: kin.clone(), frame: Frame::translation(pt([0.3, 0.2, 0.1]), pt([0.3, 0.2, 0.1])) };
+            let (sols, _) = idf.forward_transformed(&qs, &pv);
+            mon.count("forward_transformed.singular_with_other_previous");
+            // what the wrapped robot itself answers for that pose with the caller's previous vector
+            let direct = rs_opw_kinematics::kinematic_traits::Kinematics::inverse_continuing(kin.as_ref(), &fr_to_iso(&fk(&rp, &qs)), &pv);
+            let missing = direct.iter().filter(|d| !sols.iter().any(|s| (0..6).all(|j| circ_dist(s[j], d[j]) <= 1e-6))).count();
+            if missing > 0 {
+                mon.violation("forward-transformed:solutions-lost:singular-pose", "wrist-singular pose through an identity frame: an answer the wrapped robot gives for the caller's previous joints is missing", json!({"robot": robot_json(&robot), "qs": jf(&qs), "previous": jf(&pv), "answers": sols.iter().map(|s| jf(s)).collect::<Vec<_>>(), "wrapped_robot": direct.iter().map(|s| jf(s)).collect::<Vec<_>>()}));
+            } else {
+                mon.held();
+            }
+        }
     }
     // Frame::translation is the pure shift q - p
     let a = [rng.range(-5.0, 5.0), rng.range(-5.0, 5.0), rng.range(-5.0, 5.0)];
